@@ -38,7 +38,11 @@ extern "C" void h_extend(void) {
     gil::boundary_option o = (gil::boundary_option)opt;
     gil::image<src_pix> r = fn == 0 ? gil::extend_row(sv, (std::size_t)n, o) : fn == 1 ? gil::extend_col(sv, (std::size_t)n, o) : gil::extend_boundary(sv, (std::size_t)n, o);
     auto rv = gil::const_view(r);
-    vp_assert(rv.width() == w + 2 * nx && rv.height() == h + 2 * ny, "extend.result_dimensions");
+    // a padded image without pixels: gil::image's constructor normalises a zero dimension to 0x0 (C10's business), so only emptiness is required
+    if ((w + 2 * nx) * (h + 2 * ny) == 0) { vp_assert(rv.width() * rv.height() == 0, "extend.result_empty"); return; }
+    bool dims_ok = rv.width() == w + 2 * nx && rv.height() == h + 2 * ny;
+    vp_assert(dims_ok, "extend.result_dimensions");
+    if (!dims_ok) return;
     for (int y = 0; y < h + 2 * ny; ++y) for (int x = 0; x < w + 2 * nx; ++x) {
         int sx = x - nx, sy = y - ny;                          // source coordinates of result pixel (x,y)
         bool in = sx >= 0 && sx < w && sy >= 0 && sy < h;
